@@ -671,6 +671,11 @@ struct SigAccess : public sigc::signal_base
 using SlotI = sigc::slot<int(int)>;
 using SlotV = sigc::slot<void(int)>;
 
+struct NoexceptIdentity
+{
+  int operator()(int a) const noexcept { return a; }
+};
+
 // A functor whose copy constructor throws while armed: a connect() or a slot copy/assignment that has to copy it FAILS.
 // The library promises nothing new in that case, so the failed attempt must leave the signal / the destination slot
 // exactly as it was and leak nothing (variation without a model counterpart: the attempt is made in addition to, and
@@ -993,6 +998,16 @@ struct Interp
           dst = SlotV(FAlV(fid));
         else
           dst = SlotI(FAl(fid));
+        return 0;
+      }
+      if (fid % 6 == 4)
+      {
+        // variation without a model counterpart: the functor below a compose() whose getter is a `noexcept` identity
+        // (what the functor throws must still reach the caller of emit(): no noexcept boundary derived from the getter)
+        if constexpr (isV)
+          dst = SlotV(sigc::compose(FV(fid), NoexceptIdentity()));
+        else
+          dst = SlotI(sigc::compose(F(fid), NoexceptIdentity()));
         return 0;
       }
       if constexpr (isV)
